@@ -259,6 +259,8 @@ pub struct Finish {
     pub floors: Vec<Floor>,
     pub extras: Map<String, J>,
     pub assumptions: Vec<String>,
+    /// violations that only show across the whole run (e.g. two readings of one ambiguity mixed)
+    pub violations: Vec<Violation>,
 }
 
 pub struct Merged {
@@ -534,7 +536,10 @@ pub fn drive(p: &Property, tier: Tier) -> i32 {
         m.violations.entry(v.sig.clone()).or_insert(v);
     }
 
-    let fin = (p.finish)(&m, tier);
+    let mut fin = (p.finish)(&m, tier);
+    for v in fin.violations.drain(..) {
+        m.violations.entry(v.sig.clone()).or_insert(v);
+    }
     for f in &fin.floors {
         if !f.ok {
             inconclusive.push(format!("coverage floor missed: {}", f.what));
